@@ -637,6 +637,13 @@ def check_unit(unit, workdir, seeds=(None,), tier="quick"):
         errs = errors_of(res, fname)
         vr = (res["json"] or {}).get("verification-results", {})
         runs.append({"seed": seed, "rc": res["rc"], "verified": vr.get("verified"), "errors": vr.get("errors"), "wall_s": round(res["wall_s"], 2), "cmd": res["cmd"]})
+        if seed is not None and errs and all(is_resource(e["message"]) for e in errs):
+            # a stability re-run (extra solver seed) that only ran out of resource: retry once with a tenfold resource limit before
+            # classifying; the retry is recorded in the evidence (a slow-query signal), the default-seed run is never relaxed
+            res = run_verus(gpath, extra + ["--rlimit", "100"])
+            errs = errors_of(res, fname)
+            vr = (res["json"] or {}).get("verification-results", {})
+            runs.append({"seed": seed, "retry_with_rlimit": 100, "rc": res["rc"], "verified": vr.get("verified"), "errors": vr.get("errors"), "wall_s": round(res["wall_s"], 2), "cmd": res["cmd"]})
         if res["json"] is None or (vr.get("encountered-vir-error")) or (res["rc"] != 0 and not errs and not vr):
             raise Undecided("verifier-front-end-error", "\n".join(res["raw_err"][:20]) + "\n".join(d.get("rendered", "") for d in res["diags"] if d.get("level") == "error")[:4000])
         compile_errs = [e for e in errs if not is_semantic(e["message"]) and not is_resource(e["message"])]
